@@ -32,30 +32,58 @@ def _ok_blocks(fn):
     return [b for b, k, _ in return_kinds(fn) if k == "Ok"]
 
 
+def _ok_only_after(prog, fn, name, depth=0):
+    """(holds, sites): every path of fn to an Ok return passes a call of `name` - made directly, or by a helper of the
+    crate for which the same holds - whose result is propagated and whose error edge cannot reach Ok"""
+    sites = [(b, t) for b, t in fn.calls() if callee_is(t, name)]
+    if depth < 2:
+        for b, t in fn.calls():
+            g = prog.fns.get(t["callee"])
+            if g is not None and g.crate == "sonic_rs" and g is not fn and not callee_is(t, name) and any(callee_is(tt, name) or (depth < 1 and prog.fns.get(tt["callee"]) is not None) for bb, tt in g.calls()):
+                okg, sg = _ok_only_after(prog, g, name, depth + 1)
+                if okg and sg:
+                    sites.append((b, t))
+    if not sites:
+        return False, []
+    # success exits: Ok(..) built here, or a callee's Result returned as it is (not the `?` residual)
+    oks = [b for b, k, x in return_kinds(fn) if k in ("Ok", "other") or (k == "call" and not callee_is(x, "from_residual"))]
+    blocks = {b for b, t in sites}
+    esc = fn.reachable_from(0, avoid=blocks) & set(oks)
+    prop = all(result_fate(fn, b, t) in ("propagated", "inspected") or _returned_directly(fn, t) for b, t in sites)
+    bad_edge = False
+    for b, t in sites:
+        if fn.blocks[b]["term"].get("k") == "tailcall" or _returned_directly(fn, t):
+            continue
+        re_ = result_edges(fn, t["dest"][0])
+        if re_ is None:
+            tb = [(bb, tt) for bb, tt in fn.calls() if callee_is(tt, "branch") and op_local(tt["args"][0]) == t["dest"][0]]
+            re_ = result_edges(fn, tb[0][1]["dest"][0]) if len(tb) == 1 else None
+        if re_ is None or (fn.reachable_from(re_[1]) & set(oks)):
+            bad_edge = True
+    return (not esc and prop and not bad_edge), sites
+
+
+def _returned_directly(fn, t):
+    """the call's Result is the function's own return value (`helper(..)` in tail position)"""
+    d = t["dest"]
+    if d[0] == 0 and not d[1]:
+        return True
+    der = forward_derived(fn, {d[0]}) | {d[0]}
+    return 0 in der and not any(callee_is(tt, "branch") and op_local(tt["args"][0]) in der for bb, tt in fn.calls())
+
+
 def r02_1(ctx):
     prog = ctx.prog()
     ft = prog.find("serde::de::from_trait")
     oks = _ok_blocks(ft)
     ctx.floor("R02.1", "Ok returns of from_trait", len(oks), 1)
     for name in ("parse_trailing", "check_utf8_final"):
-        sites = [(b, t) for b, t in ft.calls() if callee_is(t, name)]
+        ok, sites = _ok_only_after(prog, ft, name)
         if not sites:
             ctx.ob("R02.1", f"from_trait:{name}", False, ft.loc(), f"from_trait never calls {name}")
             continue
-        blocks = {b for b, t in sites}
-        esc = ft.reachable_from(0, avoid=blocks) & set(oks)
-        prop = all(result_fate(ft, b, t) in ("propagated", "inspected") for b, t in sites)
-        # the Err edge must not reach Ok
-        bad_edge = False
-        for b, t in sites:
-            re_ = result_edges(ft, t["dest"][0])
-            if re_ is None:
-                tb = [(bb, tt) for bb, tt in ft.calls() if callee_is(tt, "branch") and op_local(tt["args"][0]) == t["dest"][0]]
-                re_ = result_edges(ft, tb[0][1]["dest"][0]) if len(tb) == 1 else None
-            if re_ is None or (ft.reachable_from(re_[1]) & set(oks)):
-                bad_edge = True
-        ctx.ob("R02.1", f"from_trait:{name}", not esc and prop and not bad_edge, ft.loc(sites[0][1]["ln"]),
-               f"every path of from_trait to Ok passes {name} and its error edge cannot reach Ok" if (not esc and prop and not bad_edge) else f"from_trait can return Ok without a successful {name}")
+        ctx.ob("R02.1", f"from_trait:{name}", ok, ft.loc(sites[0][1]["ln"]),
+               f"every path of from_trait to Ok passes {name} and its error edge cannot reach Ok" if ok else f"from_trait can return Ok without a successful {name}")
     # from_slice: validate_utf8 = true
     fs = prog.find("serde::de::from_slice")
     rn = [(b, t) for b, t in fs.calls() if callee_is(t, "Read::new", "Read::<'a>::new", "new") and "reader::Read" in t["callee"]]
@@ -89,6 +117,14 @@ def r02_2(ctx, config="native"):
         ctx.fail_closed("R02.2", "get_nonspace_bits")
         return
     gn = gn[0]
+    # the classifier body: get_nonspace_bits itself, or a helper of its module that it applies to each half
+    top = gn
+    helpers = [prog.fns[t["callee"]] for b, t in gn.calls() if t["callee"] in prog.fns and prog.fns[t["callee"]].crate == "sonic_rs"
+               and any(callee_is(tt, "_mm256_setr_epi8") for bb, tt in prog.fns[t["callee"]].calls())]
+    per_call = 1
+    if helpers and not any(callee_is(t, "_mm256_setr_epi8") for b, t in gn.calls()):
+        gn = helpers[0]
+        per_call = sum(1 for b, t in top.calls() if t["callee"] == gn.id)
     setr = [(b, t) for b, t in gn.calls() if callee_is(t, "_mm256_setr_epi8")]
     if setr:
         vals = []
@@ -106,17 +142,20 @@ def r02_2(ctx, config="native"):
             for half, lut in (("lo", vals[:16]), ("hi", vals[16:])):
                 s = _lut_ws(lut)
                 ctx.ob("R02.2", f"x86-lut:{half}", s == WS, gn.loc(setr[0][1]["ln"]), f"pshufb/cmpeq classifier ({half} lane) evaluated over all 256 bytes accepts {sorted(hex(x) for x in s)}")
-        # shape: shuffle(lut, data) then cmpeq(data, shuffled), movemask, final negation
+        # shape: shuffle(lut, data) then cmpeq(data, shuffled), movemask - for both 32-byte halves - and a final negation
         names = [t["callee"].rsplit("::", 1)[-1] for b, t in gn.calls()]
-        ok = names.count("_mm256_shuffle_epi8") == 2 and names.count("_mm256_cmpeq_epi8") == 2 and names.count("_mm256_movemask_epi8") == 2
-        nots = [s for b, i, s in gn.assigns() if s["rv"]["k"] == "unop" and s["rv"]["op"] == "Not"]
+        n = names.count("_mm256_shuffle_epi8")
+        ok = n >= 1 and names.count("_mm256_cmpeq_epi8") == n and names.count("_mm256_movemask_epi8") == n and n * per_call == 2
+        nots = [s for f_ in {top, gn} for b, i, s in f_.assigns() if s["rv"]["k"] == "unop" and s["rv"]["op"] == "Not"]
         ctx.ob("R02.2", "x86-lut:shape", ok and len(nots) >= 1, gn.loc(), "shuffle -> cmpeq -> movemask for both halves, result negated (non-space bits)")
+        k = 0
         for b, t in gn.calls():
             if callee_is(t, "_mm256_shuffle_epi8"):
                 # first operand must be the LUT, second the data
+                k += 1
                 l0 = op_local(t["args"][0])
                 ok0 = l0 is not None and setr[0][1]["dest"][0] in (backward_slice(gn, [l0])[0] | {l0})
-                ctx.ob("R02.2", f"x86-lut:operand-order@{t['ln']}", ok0, gn.loc(t["ln"]), "pshufb(table = LUT, index = data)")
+                ctx.ob("R02.2", f"x86-lut:operand-order#{k}", ok0, gn.loc(t["ln"]), "pshufb(table = LUT, index = data)")
     elif any("vqtbl1q_u8" in t["callee"] for f in [gn] + [x for x in prog.fns.values() if x.id.startswith(gn.id + "::")] for b, t in f.calls()):
         # aarch64 nibble tables: whitespace iff LOW[b & 15] & HIGH[b >> 4] & mask != 0
         helper = [x for x in prog.fns.values() if x.id.startswith(gn.id + "::") and any("vqtbl1q_u8" in t["callee"] for b, t in x.calls())]
